@@ -55,4 +55,6 @@ def obligations(tier, ctx):
         obs.append(Ob(name=f"history_{v1}{v2}", params=[("a", "int"), ("b", "int")],
                       pre=["0 <= a <= 4", "0 <= b <= 4"], call=f"H.history({v1}, {v2}, [a, 0], [1, b])",
                       backend="P", timeout=200, family="version change mid-connection"))
+    from symcheck.runner import mirror
+    obs += mirror(obs, r"^(transport_n[012]|single|repeat|history_03|history_03)$", "F", limit=(3 if tier == "quick" else None))
     return obs
